@@ -331,3 +331,5 @@ contract(MT + '_apply_annotations_enum_members',
          },
          note='the generic metadata of a member comes from the block carrying its own C name '
               'whenever such a block exists; the @MEMBER line of the enumeration block is only a fallback for the description')
+
+
